@@ -29,7 +29,7 @@ def _link_geometry_to_cell(self, geom):
     # the cell can refuse a surface or complement of the new geometry (number conflict):
     # nothing is linked before all of them have been accepted
     geom._add_new_children_to_cell(geom, self)
-    geom._cell = self
+    geom._link_to_cell(self)
 
 
 class Cell(Numbered_MCNP_Object):
